@@ -203,6 +203,10 @@ func (o Op) SQL(tbl string, cols []string) string {
 		return o.onMain().SQL("otherdb.t", cols)
 	}
 	switch o.Kind {
+	case "readh":
+		return "SELECT * FROM " + tbl + " AS OF 'HEAD' ORDER BY pk"
+	case "readb":
+		return "SELECT * FROM " + tbl + " AS OF 'main' ORDER BY pk"
 	case "begin":
 		return "BEGIN"
 	case "commit":
@@ -245,7 +249,7 @@ func (o Op) Wire() string {
 		return strings.Join(f, " ")
 	}
 	switch o.Kind {
-	case "begin", "commit", "rollback", "read", "dcommit":
+	case "begin", "commit", "rollback", "read", "dcommit", "readh", "readb":
 		return p + o.Kind
 	case "auto0":
 		return p + "auto 0"
